@@ -6,7 +6,7 @@
                                QuerySketch::score_entry, SketchTrack::find_candidates
    src/memvid/sketch.rs      : Memvid::find_sketch_candidates, has_sketches
    src/memvid/search/mod.rs  : the SKETCH PRE-FILTER block of Memvid::search (options
-                               hamming_threshold 32, max_candidates max(500, 10*top_k),
+                               hamming_threshold 32, max_candidates max(500, sat(10*top_k)),
                                min_score 0.0; composition with the filter built so far)
    src/memvid/search/tantivy.rs : doc_limit, the engine call, the evaluation loop, the
                                re-sort and the page loop -- imported from Model/SearchPage.v
@@ -129,9 +129,9 @@ Section Candidates.
   (* ---------------------------------------------------------------- the stage in Memvid::search *)
   Definition SKETCH_HAMMING_THRESHOLD : N := 32.
   Definition SKETCH_MIN_CANDIDATES : N := 500.
-  (* max_candidates: (params.top_k * 10).max(500)    (checked multiplication: debug panics) *)
-  Definition sketch_max_candidates (top_k : N) : outcome N :=
-    if USIZE_MAX <? top_k * 10 then Panic 2 else Ok (N.max (top_k * 10) SKETCH_MIN_CANDIDATES).
+  (* max_candidates: params.top_k.saturating_mul(10).max(500)        (repo commit 9b4da04) *)
+  Definition sketch_max_candidates (top_k : N) : N :=
+    N.max (N.min (top_k * 10) USIZE_MAX) SKETCH_MIN_CANDIDATES.
 
   Variable s_zero : S.   (* min_score: 0.0 *)
 
@@ -160,14 +160,10 @@ Section Candidates.
   (* the candidate filter handed to try_tantivy_search, from the filter cf0 the earlier
      stages built (None with the default options) *)
   Definition final_filter (es : list entry) (q : qsketch) (has_text no_sketch : bool) (top_k : N)
-             (cf0 : option (list N)) : outcome (option (list N)) :=
+             (cf0 : option (list N)) : option (list N) :=
     if sketch_applies es has_text no_sketch then
-      match sketch_max_candidates top_k with
-      | Ok maxc => Ok (sketch_stage (sketch_candidate_ids q es maxc) cf0)
-      | Err k => Err k
-      | Panic s => Panic s
-      end
-    else Ok cf0.
+      sketch_stage (sketch_candidate_ids q es (sketch_max_candidates top_k)) cf0
+    else cf0.
 End Candidates.
 
 (* ------------------------------------------------------------------ candidate filters as sets *)
@@ -181,6 +177,20 @@ Fixpoint dedupN (l : list N) : list N :=
   | x :: r => x :: filter (fun y => negb (x =? y)) (dedupN r)
   end.
 Definition set_len (l : list N) : N := len (dedupN l).
+
+(* the limit handed to the engine, try_tantivy_search (repo commit 9b4da04: saturating, never panics):
+     let base_docs = request.top_k.max(1).saturating_add(offset_hint);
+     let mut doc_limit = base_docs.saturating_mul(4).max(20);
+     if let Some(filter) = candidate_filter { doc_limit = doc_limit.min(filter.len().max(1)); }
+   Stated here (not imported from SearchPage.doc_limit) so that this development does not depend
+   on how that definition writes its overflow branch. *)
+Definition engine_limit (top_k hint : N) (flt : option N) : N :=
+  let base := N.min (N.max top_k 1 + hint) USIZE_MAX in
+  let l := N.max (N.min (base * 4) USIZE_MAX) 20 in
+  match flt with
+  | Some f => N.min l (N.max f 1)
+  | None => l
+  end.
 
 (* ------------------------------------------------------------------ the pipeline *)
 (* what the evaluation loop of try_tantivy_search reads from the frame table for one hit:
@@ -209,17 +219,9 @@ Section Pipeline.
      Ok None = the legacy lex pipeline answers (search_with_lex_fallback). *)
   Definition search (es : list entry) (q : qsketch) (rq : sreq) (cf0 : option (list N)) (has_lex : bool)
     : outcome (option page) :=
-    match final_filter S score_fn s_le s_zero es q (r_has_text rq) (r_no_sketch rq) (r_top_k rq) cf0 with
-    | Err k => Err k
-    | Panic s => Panic s
-    | Ok cf =>
-        match doc_limit (r_top_k rq) (offset_hint (r_cursor rq)) (option_map set_len cf) with
-        | Err k => Err k
-        | Panic s => Panic s
-        | Ok limit =>
-            after_engine combined has_lex (map (mk_cand toc) (engine cf limit)) (r_top_k rq) (r_cursor rq)
-        end
-    end.
+    let cf := final_filter S score_fn s_le s_zero es q (r_has_text rq) (r_no_sketch rq) (r_top_k rq) cf0 in
+    let limit := engine_limit (r_top_k rq) (offset_hint (r_cursor rq)) (option_map set_len cf) in
+    after_engine combined has_lex (map (mk_cand toc) (engine cf limit)) (r_top_k rq) (r_cursor rq).
 
   Definition hit_frames (p : page) : list N := map fst (p_hits p).
 End Pipeline.
@@ -269,29 +271,18 @@ Section Classes.
   Variable combined : N -> Z -> N.
 
   (* the `evaluated` vector of the request after the re-sort *)
-  Definition evaluated_docs (es : list entry) (q : qsketch) (rq : sreq) (cf0 : option (list N)) : option (list edoc) :=
-    match final_filter S score_fn s_le s_zero es q (r_has_text rq) (r_no_sketch rq) (r_top_k rq) cf0 with
-    | Ok cf =>
-        match doc_limit (r_top_k rq) (offset_hint (r_cursor rq)) (option_map set_len cf) with
-        | Ok limit => Some (resort combined (evaluate (N.max (r_top_k rq) 1) (map (mk_cand toc) (engine cf limit))))
-        | _ => None
-        end
-    | _ => None
-    end.
+  Definition evaluated_docs (es : list entry) (q : qsketch) (rq : sreq) (cf0 : option (list N)) : list edoc :=
+    let cf := final_filter S score_fn s_le s_zero es q (r_has_text rq) (r_no_sketch rq) (r_top_k rq) cf0 in
+    let limit := engine_limit (r_top_k rq) (offset_hint (r_cursor rq)) (option_map set_len cf) in
+    resort combined (evaluate (N.max (r_top_k rq) 1) (map (mk_cand toc) (engine cf limit))).
 
   (* F-C09-2 *)
   Definition known_snippets (es : list entry) (q : qsketch) (rq : sreq) (cf0 : option (list N)) : bool :=
-    match evaluated_docs es q rq cf0 with
-    | Some ev => snippets_exceed ev (r_top_k rq)
-    | None => false
-    end.
+    snippets_exceed (evaluated_docs es q rq cf0) (r_top_k rq).
 
   (* F-C09-1 *)
   Definition known_sketch (es : list entry) (q : qsketch) (rq : sreq) (cf0 : option (list N)) (M : list N) : bool :=
-    match final_filter S score_fn s_le s_zero es q (r_has_text rq) (r_no_sketch rq) (r_top_k rq) cf0 with
-    | Ok cf => sketch_drops M cf0 cf
-    | _ => false
-    end.
+    sketch_drops M cf0 (final_filter S score_fn s_le s_zero es q (r_has_text rq) (r_no_sketch rq) (r_top_k rq) cf0).
 End Classes.
 
 (* the engine hypothesis of the recall theorems: every document of lex_docs ∩ filter whose
